@@ -356,6 +356,7 @@ class Verifier(ExprMixin, StmtMixin, CallMixin, LibMixin, SpecMixin):
     def verify(self, qn, variant=None):
         """Returns dict(function, obligations[...], canaries, trusted, inlined, used_contracts, wall_s, error)."""
         t0 = time.time()
+        solve.reset_state()
         self.qname = qn
         self.fname = qn
         self.contract = dict(self.contracts[qn])
